@@ -33,6 +33,7 @@ MIN_REACH = {
     "crop_runs": {"quick": 60, "thorough": 1000},
     "new_samplers": {"quick": 60, "thorough": 1000},
     "crops_reaped_by_a_reloaded_crop": {"quick": 20, "thorough": 350},
+    "runs_whose_save_failed": {"quick": 10, "thorough": 200},
     "older_sampler_reused": {"quick": 8, "thorough": 150},
     "generator_draws_matched": {"quick": 300, "thorough": 5000},
 }
@@ -47,7 +48,7 @@ def cases(ctx):
             r = {"how": rng.choice(["sample", "sample", "crop"]), "n": rng.randint(1, 12), "new_sampler": rng.random() < 0.4,
                  "reuse_old": rng.random() < 0.35,
                  "override": rng.choice([None, None, "lists", "gens", "mixed"]), "shuffle": rng.choice([False, False, True, 5]),
-                 "batchsize": rng.choice([None, 1, 2, 3, 5]), "reload_crop": rng.random() < 0.5, "reap_reloaded": rng.random() < 0.5, "rseed": rng.randint(0, 10 ** 9)}
+                 "batchsize": rng.choice([None, 1, 2, 3, 5]), "reload_crop": rng.random() < 0.5, "reap_reloaded": rng.random() < 0.5, "save_fails_first": rng.random() < 0.12, "rseed": rng.randint(0, 10 ** 9)}
             runs.append(r)
         no_args = rng.random() < 0.08
         if no_args:
@@ -161,6 +162,48 @@ def run_case(ctx, case):
                     gens_used[a] = True
         err = None
         desc = "%s(n=%d%s)" % (run["how"], n, ", override=%s" % run["override"] if run["override"] else "")
+        if run.get("save_fails_first") and run["how"] == "sample" and data_name is not None and not nviol:
+            # the write of the table fails once (disk full): the run raises, memory and disk stay as they were (in step
+            # with each other), and the run that follows appends exactly its own n rows
+            from .c12 import SaveFailpoint
+            fp = SaveFailpoint()
+            fp.install()
+            fp.remaining = 1
+            failed = None
+            try:
+                with quiet():
+                    np.random.seed((run["rseed"] + 1) % (2 ** 32))
+                    s.sample_combos(n, override, verbosity=0)
+            except OSError as e:
+                failed = e
+            except Exception as e:
+                failed = e
+            finally:
+                fp.remaining = 0
+            ctx.count("runs_whose_save_failed")
+            recs, log_off = probe.read_log(logfile, log_off)
+            for v in draws.values():
+                del v[:]
+            msgs = []
+            if failed is None and fp.fired:
+                msgs.append("an injected save error did not propagate")
+            try:
+                with quiet():
+                    mem_rows = [_cv_row(r, cols) for r in s.full_df.to_dict("records")] if (prev_rows or os.path.exists(data_name)) else []
+                    disk_rows = [_cv_row(r, cols) for r in xyzpy.load_df(data_name, engine=engine).to_dict("records")] \
+                        if os.path.exists(data_name) else []
+            except Exception as e:
+                msgs.append("reading the table after a failed save raised %r" % (e,))
+                mem_rows = disk_rows = prev_rows
+            if fp.fired and mem_rows != disk_rows:
+                msgs.append("after a run whose save failed the Sampler's table has %d rows in memory and %d on disk" % (len(mem_rows), len(disk_rows)))
+            elif fp.fired and disk_rows != prev_rows:
+                msgs.append("after a run whose save failed the table on disk changed (%d rows, %d before)" % (len(disk_rows), len(prev_rows)))
+            for msg in msgs[:1]:
+                ctx.violation(dict(case, at=list(hist) + [desc + " [save failed]"]), msg, dict(sig, oracle="failed-save", how=run["how"]))
+                nviol += 1
+            if nviol:
+                break
         try:
             with quiet():
                 np.random.seed(run["rseed"] % (2 ** 32))
